@@ -52,6 +52,13 @@ def cases(draw):
         origin = origin.split(':')[0] + '+one_bool_for_int'
     else:
         t, origin = draw(gen.doc_for(spec, tags=c >= 8, hard=c % 2 == 0))
+        if c in (7, 8) and draw(st.booleans()):
+            # a well-formed tagged object of a registered class (with a bool
+            # for an int now and then) below an extra / unknown key or in a list
+            from yv.props import c04
+            t2 = c04.tagged_object_below_unknown_key(draw, spec, t)
+            if t2 is not None:
+                t, origin = boolify(draw, t2), origin.split(':')[0] + '+tagged_extra'
     if c == 11:
         from yv.props import c04
         t2 = c04.alias_typed(draw, spec) if draw(st.integers(0, 3)) > 0 else None
